@@ -50,49 +50,45 @@ Proof. vm_compute. split; reflexivity. Qed.
 
 (* ---- the raw key hash leaf ---- *)
 Lemma ext_raw_pkh fx c h :
-  ext_of_gen fx c (MRawPkH h) = ext_pk_h fx (xc_schnorr c) false.
+  ext_of_gen fx c (MRawPkH h) = ext_pk_h_none fx (xc_schnorr c).
 Proof. reflexivity. Qed.
 
+(* THE CODE AS WRITTEN (since /repo 46f3eb21), every rule set: whatever key form the satisfier resolves
+   the hash to -- compressed or uncompressed outside Tap, x-only in Tap -- satisfaction and
+   dissatisfaction are within the figures of pk_h(None) *)
 Theorem raw_pkh_bound fx c h r :
-  (if xc_schnorr c then rawres_xonly r else rawres_compressed r) ->
+  (if xc_schnorr c then rawres_xonly r else rawres_compressed r \/ rawres_uncompressed r) ->
   exists s d, sat_data (ext_of_gen fx c (MRawPkH h)) = Some s /\ dissat_data (ext_of_gen fx c (MRawPkH h)) = Some d
               /\ items_within (raw_sat_items r) s /\ items_within (raw_dissat_items r) d.
 Proof.
-  intros H. rewrite ext_raw_pkh. unfold ext_pk_h, key_sig_bytes.
-  destruct (xc_schnorr c); destruct H as [Hs Hk]; eexists; eexists; (split; [reflexivity|]); (split; [reflexivity|]);
-    unfold items_within, raw_sat_items, raw_dissat_items, items_sum; cbn [length fold_right sd_wcount sd_wsize sd_ssig];
-    rewrite Hk; repeat split; lia.
-Qed.
-
-(* an uncompressed key resolved for the hash (ECDSA contexts): 73 + 66 = 139 bytes against the figure 107,
-   and 1 + 66 against 35 for the dissatisfaction -- for every rule set *)
-Theorem raw_pkh_uncompressed_refuted fx c h :
-  xc_schnorr c = false ->
-  exists r s d, rawres_uncompressed r
-                /\ sat_data (ext_of_gen fx c (MRawPkH h)) = Some s /\ dissat_data (ext_of_gen fx c (MRawPkH h)) = Some d
-                /\ sd_wsize s < items_sum (raw_sat_items r) /\ sd_ssig s < items_sum (raw_sat_items r)
-                /\ sd_wsize d < items_sum (raw_dissat_items r).
-Proof.
-  intros Hc. exists (mkRawRes 73 66). rewrite !ext_raw_pkh, Hc. unfold ext_pk_h, key_sig_bytes. cbn [sat_data dissat_data].
-  exists (mkSD (34 + 73) 2 (34 + 73) 2 0), (mkSD (34 + 1) 2 (34 + 1) 2 0).
-  split; [split; [cbn; lia|reflexivity]|]. split; [reflexivity|]. split; [reflexivity|].
-  vm_compute. repeat split; reflexivity.
-Qed.
-
-(* with the candidate repair (pk_h(None) assumes a 66-byte key item outside Tap) the bound holds for
-   both key forms *)
-Definition ext_pk_h_none_fixed (schnorr : bool) : ext :=
-  if schnorr then ext_pk_h as_written true false else ext_pk_h as_written false true.
-Theorem raw_pkh_bound_fixed (schnorr : bool) (r : rawres) :
-  (if schnorr then rawres_xonly r else rawres_compressed r \/ rawres_uncompressed r) ->
-  exists s d, sat_data (ext_pk_h_none_fixed schnorr) = Some s /\ dissat_data (ext_pk_h_none_fixed schnorr) = Some d
-              /\ items_within (raw_sat_items r) s /\ items_within (raw_dissat_items r) d.
-Proof.
-  intros H. unfold ext_pk_h_none_fixed, ext_pk_h, key_sig_bytes, unc_bytes.
-  destruct schnorr; cbn [as_written fx_unc]; eexists; eexists; (split; [reflexivity|]); (split; [reflexivity|]);
+  intros H. rewrite ext_raw_pkh. unfold ext_pk_h_none, ext_pk_h, key_sig_bytes, unc_bytes, fx_pkk. cbn [fx_unc].
+  destruct (xc_schnorr c); eexists; eexists; (split; [reflexivity|]); (split; [reflexivity|]);
     unfold items_within, raw_sat_items, raw_dissat_items, items_sum; cbn [length fold_right sd_wcount sd_wsize sd_ssig].
   - destruct H as [Hs Hk]. rewrite Hk. repeat split; lia.
   - destruct H as [[Hs Hk]|[Hs Hk]]; rewrite Hk; repeat split; lia.
+Qed.
+
+(* the figure is attained by an uncompressed key with a 72-byte signature *)
+Lemma raw_pkh_bound_tight fx c h :
+  xc_schnorr c = false ->
+  exists s, sat_data (ext_of_gen fx c (MRawPkH h)) = Some s /\ sd_wsize s = items_sum (raw_sat_items (mkRawRes 73 66)).
+Proof.
+  intros Hc. rewrite ext_raw_pkh, Hc. unfold ext_pk_h_none, ext_pk_h, key_sig_bytes, unc_bytes, fx_pkk. cbn [fx_unc].
+  eexists. split; [reflexivity|]. reflexivity.
+Qed.
+
+(* REGRESSION (about the figure BEFORE /repo 46f3eb21, not about the code): pk_h(None) counted the key
+   item as 34 bytes; an uncompressed key gave 73 + 66 = 139 against 107, 67 against 35 *)
+Lemma raw_pkh_pre_46f3eb21_undershoot fx :
+  exists r s d, rawres_uncompressed r
+                /\ sat_data (ext_pk_h_none_34 fx false) = Some s /\ dissat_data (ext_pk_h_none_34 fx false) = Some d
+                /\ sd_wsize s < items_sum (raw_sat_items r) /\ sd_ssig s < items_sum (raw_sat_items r)
+                /\ sd_wsize d < items_sum (raw_dissat_items r).
+Proof.
+  exists (mkRawRes 73 66). unfold ext_pk_h_none_34, ext_pk_h, key_sig_bytes. cbn [sat_data dissat_data].
+  exists (mkSD (34 + 73) 2 (34 + 73) 2 0), (mkSD (34 + 1) 2 (34 + 1) 2 0).
+  split; [split; [cbn; lia|reflexivity]|]. split; [reflexivity|]. split; [reflexivity|].
+  vm_compute. repeat split; reflexivity.
 Qed.
 
 Lemma ko_nonvacuous :
